@@ -24,6 +24,8 @@ def run(chk, tier):
         chk.ob('R13.1', 'unimock_macros forbids unsafe code', M.unsafe_code_lint == 'Forbid', config=cfg, site='lint:unimock_macros', what='lint %s' % M.unsafe_code_lint, found=M.unsafe_code_lint, expected='Forbid')
         push_node(chk, F, 'R13.2', cfg)
         chain_writers(chk, F, 'R13.3', cfg)
+        from props import ctor
+        ctor.push_value_mut(chk, F, 'R13.2.mut', cfg)
         lent_boxes(chk, F, 'R13.3.lent', cfg)
         leaks.census(chk, F, 'R13.4', cfg)
         # the chain is released by teardown (pre-effect) and by Drop only
